@@ -128,6 +128,12 @@ def check_g4(pid, tier):
         fpts = [g7.FPoint(m, mode, False, fs) for m in ("orjson", "msgpack", "toml") for mode in ("eager", "lazy", "postponed") for fs in ("native", "native2")]
         fpts += [g7.FPoint(m, mode, False, "selfref") for m in ("orjson", "msgpack", "toml") for mode in ("eager", "lazy")]
         results += runner.run_pool(g7.g7_task, [(pid, p) for p in fpts], chunks=1)
+    if pid in ("C02", "C03"):
+        # specialised generic classes (units keyed by their type arguments), also a generic class inside a generic class
+        from . import g7
+
+        gpts = [g7.FPoint(m, "eager", False, fs) for m in ("dict", "msgpack") for fs in ("generic", "generic2")]
+        results += runner.run_pool(g7.g7_task, [(pid, p) for p in gpts], chunks=1)
     obs, crashes, trusted = _collect(results)
     if pid in ("C02", "C03"):
         try:
